@@ -216,6 +216,10 @@ func main() {
 			panic(err)
 		}
 	}
+	if err := writeLocks(*repo, *out); err != nil {
+		fmt.Fprintln(os.Stderr, "extract: cache lock shape:", err)
+		failed = append(failed, "bgzf/cache lock shape")
+	}
 	report["untranslated"] = failed
 	if *facts != "" {
 		js, _ := json.MarshalIndent(report, "", " ")
